@@ -183,13 +183,31 @@ def run_tree(case):
     return out
 
 
+def callback_of_kind(kind, f):
+    """the same callback in the shapes an application may hand it over: a function, a bound method of an object nothing else refers to, a partial, a callable object"""
+    if kind == "method":
+        class Action:
+            def __init__(self): self.f = f
+            def activate(self, data): return self.f(data)
+        return Action().activate
+    if kind == "partial":
+        import functools
+        return functools.partial(lambda _x, data: f(data), 0)
+    if kind == "callable":
+        class Call:
+            def __call__(self, data): return f(data)
+        return Call()
+    return f
+
+
 def run_key(case):
     kp = case["kp"]; fired = []
     c = RC.ListRowContainer(1, numbering=kp is not None)
     if kp is not None:
         c.key_pattern = RC.KeyPattern(pattern=kp[0] + "{:d}" + kp[1], offset=kp[2])
     for i, has_cb in enumerate(case["items"]):
-        c.add(RW.TextWidget("w"), (lambda d: fired.append(d)) if has_cb else None, i)
+        c.add(RW.TextWidget("w"), callback_of_kind(case.get("cbkind"), lambda d: fired.append(d)) if has_cb else None, i)
+    import gc; gc.collect()
     key = case["key"]
     if "rawkey" in case:            # a non-str key (the model gets null)
         key = eval(case["rawkey"], {})
@@ -211,7 +229,8 @@ def run_keytree(case):
             calls[i] = calls.get(i, 0) + 1; fired.append(data)
             if calls[i] in (case.get("raise_on") or {}).get(str(i), []): raise RuntimeError("callback of item %d fails" % i)
         return cb
-    for i, x in enumerate(items): c.add(build(x), mk(i) if case["cbs"][i] else None, i)
+    for i, x in enumerate(items): c.add(build(x), callback_of_kind(case.get("cbkind"), mk(i)) if case["cbs"][i] else None, i)
+    import gc; gc.collect()
     try:
         c.render(case["w"]); r = obs(c); r["nodes"] = nodes_of(c, shared_ids(c))
     except Exception as e:
